@@ -60,11 +60,60 @@ class _ShimThreading:
     def Thread(self, *a, **kw):
         return _FakeThread(self._driver, *a, **kw)
 
+    def Lock(self):
+        return _InjectLock(self._driver, False)
+
+    def RLock(self):
+        return _InjectLock(self._driver, True)
+
     def main_thread(self):
         return self._real.main_thread()
 
     def __getattr__(self, name):
         return getattr(self._real, name)
+
+
+class KbWouldBlock(BaseException):
+    """The keyboard body, run synchronously at an injection point, asked for a lock the generating thread holds at that point: in a real run the
+    keyboard thread would wait there.  'Runs to completion here' is then not a schedule that exists; the injection is abandoned."""
+
+
+class _InjectLock:
+    """Lock / RLock stand-in for the sequential driver (one real thread plays both roles)."""
+
+    def __init__(self, driver, reentrant):
+        self._d, self._re = driver, reentrant
+        self._owner = None      # 'main' / 'kb'
+        self._depth = 0
+        driver.locks.append(self)
+
+    def acquire(self, blocking=True, timeout=-1):
+        me = 'kb' if self._d.injecting else 'main'
+        if self._owner is None or (self._re and self._owner == me):
+            self._owner = me
+            self._depth += 1
+            return True
+        if self._owner == me:
+            raise RuntimeError('harness: the %s role acquires a non-reentrant lock it already holds (a real run would deadlock here)' % me)
+        if not blocking:
+            return False
+        if me == 'kb':
+            self._d.kb_blocked = True
+            raise KbWouldBlock()
+        raise RuntimeError('harness: the generating role needs a lock that the abandoned keyboard body still holds')
+
+    def release(self):
+        self._depth -= 1
+        if self._depth <= 0:
+            self._owner, self._depth = None, 0
+
+    def locked(self):
+        return self._owner is not None
+
+    __enter__ = acquire
+
+    def __exit__(self, *a):
+        self.release()
 
 
 class _Clock:
@@ -95,6 +144,15 @@ class Driver:
         self.nguess = 0
         self.thread_created = 0
         self.pcfg = None
+        self.locks = []
+        self.injecting = False      # the keyboard body is being run synchronously right now
+        self.kb_blocked = False     # ... and it had to be abandoned because it needed a lock the generating role holds
+
+    def drop_kb_locks(self):
+        # whatever the (finished or abandoned) keyboard body still holds is given back: a body that was abandoned never ran past that point
+        for l in self.locks:
+            if l._owner == 'kb':
+                l._owner, l._depth = None, 0
 
     def maybe_keys(self, pcfg):
         if self.keys is None or self.keys_done or self.nguess < self.keys[0] or self.kb_target is None:
@@ -108,7 +166,14 @@ class Driver:
                 raise EOFError('EOF when reading a line')
             return answers.pop(0)
         self.cs.input = fake_input
-        self.kb_target(*self.kb_args)
+        self.injecting = True
+        try:
+            self.kb_target(*self.kb_args)
+        except KbWouldBlock:
+            pass
+        finally:
+            self.injecting = False
+            self.drop_kb_locks()
         if pcfg.should_exit:
             self.fired = True
 
@@ -158,7 +223,14 @@ def run_guesser(tdir, argv, quit_after=None, session='default_run', keep_modules
                             raise EOFError('EOF when reading a line')
                         return answers.pop(0)
                     drv.cs.input = fake_input
-                    drv.kb_target(*drv.kb_args)
+                    drv.injecting = True
+                    try:
+                        drv.kb_target(*drv.kb_args)
+                    except KbWouldBlock:
+                        pass
+                    finally:
+                        drv.injecting = False
+                        drv.drop_kb_locks()
                     if drv.pcfg is not None and drv.pcfg.should_exit:
                         drv.fired = True
                 finally:
@@ -182,7 +254,19 @@ def run_guesser(tdir, argv, quit_after=None, session='default_run', keep_modules
                 pg = tree.imp('pcfg_guesser')
                 cs = sys.modules['lib_guesser.cracking_session']
                 gm = sys.modules['lib_guesser.pcfg_grammar']
-                cs.threading = _ShimThreading(drv, real_threading)
+                shim = _ShimThreading(drv, real_threading)
+                cs.threading = shim
+                # locks created by the code under test are the driver's (every lib_guesser module that names threading / Lock / RLock)
+                for mname, mod in list(sys.modules.items()):
+                    if mod is None or not (mname == 'pcfg_guesser' or mname.startswith('lib_guesser')):
+                        continue
+                    for attr, val in list(vars(mod).items()):
+                        if val is real_threading:
+                            setattr(mod, attr, shim)
+                        elif val is real_threading.Lock:
+                            setattr(mod, attr, shim.Lock)
+                        elif val is real_threading.RLock:
+                            setattr(mod, attr, shim.RLock)
                 if keys is not None or line_keys is not None:
                     import time as real_time
                     drv.cs = cs
@@ -266,6 +350,7 @@ def run_guesser(tdir, argv, quit_after=None, session='default_run', keep_modules
     run.quit_fired_at = drv.nguess if drv.fired else None
     run.fired = drv.fired
     run.line_events = line_state['n']
+    run.kb_blocked = drv.kb_blocked
     sav = os.path.join(tdir, session + '.sav')
     if os.path.exists(sav):
         with open(sav) as f:
